@@ -178,6 +178,14 @@ struct Sink {
     std::atomic<bool> gate_closed{false};      // `fillhold`: the back end is held inside the callback
     std::atomic<bool> held{false};             // the back end is waiting at the closed gate right now
     uint32_t sink_us = 0;
+    // `echo` script: re-entrant use — the callback appends a record (pseudo-producer 8) to the SAME pipe
+    std::atomic<int> echo_mode{0};             // 0 never, 1 every n-th block, 2 every block shorter than a buffer (timed flush)
+    std::atomic<unsigned> echo_n{1}, echo_len{0};
+    unsigned echo_seq = 0;
+    size_t buff_size = 0;
+    std::atomic<bool> echo_stop{false};        // set before cleanup(): no nested append may start any more
+    std::atomic<int> in_echo{0};
+    std::vector<size_t> echo_blocks;           // ordinal of the block whose callback made each nested append
 };
 
 struct Prod { unsigned tid; unsigned pace_us; std::vector<Tok> toks; };
@@ -226,6 +234,10 @@ struct Watchdog {
 
 static bool guarded_cleanup(bool announce) {
     Watchdog wd("cleanup", watchdog_ms(), announce);
+    if (g_sink) {   // cleanup begins at a quiescent point: no nested append in flight, none may start (they would be `late`)
+        g_sink->echo_stop.store(true, std::memory_order_release);
+        while (g_sink->in_echo.load() != 0) usleep(200);
+    }
     g_pipe->cleanup();
     return true;
 }
@@ -338,13 +350,27 @@ int main() {
             bool ok = g_pipe->initialize(cfg);
             if (!ok) g_track_size = 0;
             if (ok) {
-                delete g_sink; g_sink = new Sink; g_sink->sink_us = g_sink_us;
+                delete g_sink; g_sink = new Sink; g_sink->sink_us = g_sink_us; g_sink->buff_size = (size_t)a;
                 Sink *s = g_sink;
                 g_pipe->setCallback([s](const void *p, size_t n) {
                     if (s->inside.fetch_add(1) != 0) s->overlap = true;
                     s->lens.push_back(n);
                     const uint8_t *q = static_cast<const uint8_t *>(p);
                     s->stream.insert(s->stream.end(), q, q + n);
+                    if (s->echo_mode != 0 && !s->echo_stop.load(std::memory_order_acquire) && s->echo_seq < 40) {
+                        size_t ord = s->lens.size() - 1;
+                        bool fire = s->echo_mode.load() == 1 ? (ord % s->echo_n.load() == 0) : (n < s->buff_size);
+                        if (fire) {
+                            s->in_echo.fetch_add(1);
+                            if (!s->echo_stop.load(std::memory_order_acquire)) {
+                                std::vector<uint8_t> r = record_bytes(8, s->echo_seq, s->echo_len.load());
+                                g_pipe->append(r.data(), r.size());          // nested append from inside the sink callback
+                                s->echo_blocks.push_back(ord);
+                                ++s->echo_seq;
+                            }
+                            s->in_echo.fetch_sub(1);
+                        }
+                    }
                     if (s->sink_us) usleep(s->sink_us);
                     while (s->gate_closed.load(std::memory_order_acquire)) { s->held.store(true); usleep(200); }
                     s->held.store(false);
@@ -359,6 +385,15 @@ int main() {
             g_seed = a; g_epoch.fetch_add(1); g_max_us = (uint32_t)b; g_sink_us = (uint32_t)c;
             if (g_sink) g_sink->sink_us = g_sink_us;   // read by the back end only inside callbacks; set between runs
             std::cout << "P perturb\n";
+        } else if (w[0] == "echo" && w.size() == 4 && in_range(w[2], 1000, a) && in_range(w[3], 2000, b) && g_live &&
+                   a >= 1 && (w[1] == "every" || w[1] == "partial" || w[1] == "never")) {
+            if (g_sink->echo_mode != 0) { std::cout << "bad-op\n"; std::cout.flush(); continue; }
+            // written while the back end may be delivering: only before any block exists in this phase in generated cases;
+            // the fields are read by the back end inside callbacks => publish through the producer-side mutexes is not
+            // available here, so the script is only accepted while nothing has been delivered yet in this lifecycle
+            g_sink->echo_n = (unsigned)a; g_sink->echo_len = (unsigned)b;
+            g_sink->echo_mode = w[1] == "every" ? 1 : (w[1] == "partial" ? 2 : 0);
+            std::cout << "P echo\n";
         } else if (w[0] == "prod" && w.size() == 4 && in_range(w[1], 7, a) && in_range(w[2], 5000, b) && g_live) {
             Prod p; p.tid = (unsigned)a; p.pace_us = (unsigned)b;
             bool dup = false;
@@ -429,6 +464,9 @@ int main() {
                 std::cout << "S " << vh::hex(g_sink->stream) << "\n";
                 std::cout << "P cb overlap=" << (g_sink->overlap.load() ? 1 : 0) << "\n";
                 std::cout << "I bp=" << g_producer_waits.load() << " peak=" << g_peak_bufs.load() << "\n";
+                std::string ns;
+                for (size_t i = 0; i < g_sink->echo_blocks.size(); ++i) { if (i) ns.push_back(','); ns += std::to_string(g_sink->echo_blocks[i]); }
+                std::cout << "N " << (ns.empty() ? "-" : ns) << "\n";
             }
         } else {
             std::cout << "bad-op\n";
